@@ -2,6 +2,7 @@
 # verify_seed.sh <ID> <k>: confirm a sub-agent's seeded change in its scratch worktree /tmp/wt/<ID>
 # (demo OK unpatched; with patch: 388 unit tests pass and demo fails), then store it under /verif/seeded/<ID>_<k>/
 ID=$1; K=$2; WT=/tmp/wt/$ID; OUT=/tmp/wtout/$ID
+PROP=${ID:0:3}; IDX=$K; [ "${ID:3}" = "b" ] && IDX=$((K+2)); [ "${ID:3}" = "c" ] && IDX=$((K+4))
 cd $WT || exit 2
 git checkout -q -- . 
 if ! git apply --check $OUT/patch$K.diff 2>/dev/null; then echo "$ID/$K: patch does not apply"; exit 1; fi
@@ -12,9 +13,9 @@ timeout 120 /venv/bin/python $OUT/demo$K.py >/tmp/wtout/$ID/run_patched$K.log 2>
 git checkout -q -- .
 echo "$ID/$K: clean_demo_rc=$rc_clean patched_demo_rc=$rc_patched tests='$tests'"
 if [ $rc_clean -eq 0 ] && [ $rc_patched -ne 0 ] && echo "$tests" | grep -q "388 passed"; then
-  D=/verif/seeded/${ID}_$K; mkdir -p $D
+  D=/verif/seeded/${PROP}_$IDX; mkdir -p $D
   cp $OUT/patch$K.diff $D/patch.diff; cp $OUT/demo$K.py $D/demo.py; cp $OUT/notes$K.md $D/notes.md 2>/dev/null
-  python3 - "$ID" "$K" "$tests" <<PY
+  python3 - "$PROP" "$IDX" "$tests" <<PY
 import json,sys
 ID,K,tests=sys.argv[1:4]
 json.dump({"property":ID,"breaks":ID,"author":"independent sub-agent given only the property text and a scratch worktree",
